@@ -9,7 +9,7 @@ import re
 from ..astutil import call_attr, calls_in, guard_facts, unparse, walk_local
 from ..cfg import CFG
 from ..report import Finding, Report
-from ..srcindex import AnalysisError, Index
+from ..srcindex import AnalysisError, Index, raw_funcs
 
 DCE = "xdsl/transforms/dead_code_elimination.py"
 TRAITS = "xdsl/traits.py"
@@ -171,7 +171,7 @@ def check_erase_sites(idx: Index, rep: Report) -> None:
     # all erasures of the file go through these sites
     dce_mod = idx.module(DCE)
     n_er = 0
-    for fn in dce_mod.functions.values():
+    for fn in raw_funcs(dce_mod):
         for c in calls_in(fn.node):
             if call_attr(c) in ("erase", "erase_op", "erase_block", "detach_op", "detach_block") and isinstance(c.func, ast.Attribute):
                 n_er += 1
